@@ -32,10 +32,12 @@ GO_XLATE = r'''
 package main
 
 import (
+	"bytes"
 	"encoding/json"
 	"fmt"
 	"go/ast"
 	"go/parser"
+	"go/printer"
 	"go/token"
 	"go/types"
 	"os"
@@ -434,6 +436,83 @@ func fnCalls(fd *ast.FuncDecl) []string {
 	return out
 }
 
+func bodyText(fd *ast.FuncDecl) string {
+	var b bytes.Buffer
+	_ = printer.Fprint(&b, token.NewFileSet(), fd.Body)
+	return strings.Join(strings.Fields(b.String()), " ")
+}
+
+// drainGuard: under which condition on maxWait the timeout case of waitForControlPlaneDrain can fire
+func drainGuard(fd *ast.FuncDecl) string {
+	// the select clause that returns controlPlaneDrainTimeout
+	recv := ""
+	ast.Inspect(fd.Body, func(x ast.Node) bool {
+		cc, ok := x.(*ast.CommClause)
+		if !ok || cc.Comm == nil {
+			return true
+		}
+		es, ok := cc.Comm.(*ast.ExprStmt)
+		if !ok {
+			return true
+		}
+		ue, ok := es.X.(*ast.UnaryExpr)
+		if !ok || ue.Op != token.ARROW {
+			return true
+		}
+		for _, st := range cc.Body {
+			if rs, ok := st.(*ast.ReturnStmt); ok && len(rs.Results) == 1 && exprStr(rs.Results[0]) == "controlPlaneDrainTimeout" {
+				recv = exprStr(ue.X)
+			}
+		}
+		return true
+	})
+	if recv == "" {
+		return "GNever"
+	}
+	// condition guarding a statement: walk with a stack of enclosing if-conditions
+	var find func(list []ast.Stmt, conds []string, match func(ast.Stmt) bool) ([]string, bool)
+	find = func(list []ast.Stmt, conds []string, match func(ast.Stmt) bool) ([]string, bool) {
+		for _, st := range list {
+			if match(st) {
+				return conds, true
+			}
+			if ifs, ok := st.(*ast.IfStmt); ok && ifs.Else == nil && ifs.Init == nil {
+				if c, ok := find(ifs.Body.List, append(append([]string{}, conds...), exprStr(ifs.Cond)), match); ok {
+					return c, true
+				}
+			}
+		}
+		return nil, false
+	}
+	isNewTimer := func(st ast.Stmt) bool {
+		as, ok := st.(*ast.AssignStmt)
+		return ok && len(as.Lhs) == 1 && len(as.Rhs) == 1 && exprStr(as.Lhs[0]) == "timer" && exprStr(as.Rhs[0]) == "time.NewTimer(maxWait)"
+	}
+	conds, ok := find(fd.Body.List, nil, isNewTimer)
+	if !ok {
+		return "GNever"
+	}
+	if recv != "timer.C" {
+		// an intermediate channel variable: it must be assigned timer.C under the same conditions
+		c2, ok2 := find(fd.Body.List, nil, func(st ast.Stmt) bool {
+			as, ok := st.(*ast.AssignStmt)
+			return ok && len(as.Lhs) == 1 && len(as.Rhs) == 1 && exprStr(as.Lhs[0]) == recv && exprStr(as.Rhs[0]) == "timer.C"
+		})
+		if !ok2 || strings.Join(c2, "&") != strings.Join(conds, "&") {
+			return "GNever"
+		}
+	}
+	switch strings.Join(conds, "&") {
+	case "":
+		return "GAlways"
+	case "maxWait >= 0":
+		return "GNonNeg"
+	case "maxWait > 0":
+		return "GPositive"
+	}
+	return "GNever"
+}
+
 func main() {
 	repo := os.Args[1]
 	runGo := filepath.Join(repo, "cmd", "run.go")
@@ -555,6 +634,21 @@ func main() {
 		}
 	}
 	res["helpers"] = helper
+	bodies := map[string]string{}
+	for _, n := range []string{"remainingReloadRetirementBudget", "retireControlPlaneConnections", "waitForControlPlaneDrain"} {
+		fd := fns[n]
+		if fd == nil {
+			die("function %s not found in cmd/run.go", n)
+		}
+		bodies[n] = bodyText(fd)
+	}
+	for _, d := range mf.Decls {
+		if fd, ok := d.(*ast.FuncDecl); ok && fd.Recv != nil && fd.Name.Name == "startControlPlaneRetirement" {
+			bodies["reloadManager.startControlPlaneRetirement"] = bodyText(fd)
+		}
+	}
+	res["bodies"] = bodies
+	res["timer_guard"] = drainGuard(fns["waitForControlPlaneDrain"])
 	// constants
 	consts := map[string]string{}
 	grab := func(file string, names ...string) {
@@ -586,7 +680,7 @@ func main() {
 	grab("common/consts/reload.go", "ReloadSend", "ReloadProcessing", "ReloadDone", "ReloadError", "ReloadBusy")
 	grab("component/outbound/dialer/sticky_cache.go", "reloadFailureQuiesce")
 	grab("component/outbound/dialer/connectivity_check.go", "Timeout")
-	grab("cmd/run.go", "reloadBusyActiveMessage", "reloadBusyRetiringMessage", "reloadReadyTimeout")
+	grab("cmd/run.go", "reloadBusyActiveMessage", "reloadBusyRetiringMessage", "reloadReadyTimeout", "reloadTotalSwitchBudget")
 	res["consts"] = consts
 	enc := json.NewEncoder(os.Stdout)
 	enc.SetIndent("", " ")
@@ -616,6 +710,19 @@ EXPECTED_HELPERS = {
     "tryQueueReloadRequest": ["reloadPending.CompareAndSwap(false,true)", "restoreRejectedReloadProgress(reloadActive,false)",
                               "beginReloadProxyFailureSuppression()", "reloadPending.Store(false)", "endReloadProxyFailureSuppression()",
                               "restoreRejectedReloadProgress(reloadActive,true)"],
+}
+
+
+def _nolit(t):
+    return re.sub(r'"[^"]*"', '""', t)
+
+
+# whitespace-normalised bodies (string literals blanked) of the retirement code the model writes by hand
+# (C20_Model.remaining_budget, ret_step, PStartRetirement)
+EXPECTED_BODIES = {
+    "remainingReloadRetirementBudget": '{ if budget <= 0 { return 0 } if startedAt.IsZero() { return budget } remaining := budget - time.Since(startedAt) if remaining < 0 { return 0 } return remaining }',
+    "retireControlPlaneConnections": _nolit('{ switch { case abort: log.Warnln("") _ = c.AbortConnections() case !hasOverlap: log.Infoln("") _ = c.AbortConnections() default: switch waitForControlPlaneDrain(log, ctx, c, maxDrain, controlPlaneRetirementLogEvery) { case controlPlaneDrainIdle: log.Infoln("") case controlPlaneDrainCanceled: log.Warnln("") _ = c.AbortConnections() case controlPlaneDrainTimeout: log.WithField("", c.ActiveSessionCount()).Warnln("") _ = c.AbortConnections() } } }'),
+    "reloadManager.startControlPlaneRetirement": _nolit('{ if m == nil || oldControlPlane == nil { return } m.lastRetirementMu.Lock() if m.lastRetirementCancel != nil { m.lastRetirementCancel() } retireCtx, retireCancel := context.WithCancel(context.Background()) m.lastRetirementCancel = retireCancel m.lastRetirementMu.Unlock() if log != nil { log.Warnln("") } retirementDone := make(chan struct{}) m.mu.Lock() m.pendingRetirementDone = retirementDone drainBudget := remainingReloadRetirementBudget(m.pendingReloadRequestedAt, reloadTotalSwitchBudget) staleBeforeNs := m.pendingReloadRequestedAtMono m.mu.Unlock() go func(done chan struct{}) { defer close(done) oldControlPlane.MarkRetired() retireControlPlaneConnections(log, retireCtx, oldControlPlane, abortConnections, hasOverlap, drainBudget) if oldCancel != nil { oldCancel() } if closeErr := oldControlPlane.Close(); closeErr != nil && log != nil { log.WithError(closeErr).Warnln("") } if successor != nil { successor.RunReloadRetirementCleanup(staleBeforeNs) } if log != nil { log.Warnln("") } }(retirementDone) }'),
 }
 
 
@@ -673,6 +780,9 @@ def gen_text(d):
     timeout = eval_duration(c["Timeout"], {})
     quiesce = eval_duration(c["reloadFailureQuiesce"], {"Timeout": timeout})
     d["quiesce_ns"] = quiesce
+    d["budget_total_ns"] = eval_duration(c["reloadTotalSwitchBudget"], {})
+    if d.get("timer_guard") not in ("GAlways", "GNonNeg", "GPositive", "GNever"):
+        raise AnchorMoved("waitForControlPlaneDrain: timer shape not understood: %r" % d.get("timer_guard"))
     # cmd/reload.go: the client sends its signal only when the progress file says Done or Error
     # (C20_Model.client_would_send)
     src = open(os.path.join(vlib.REPO, "cmd", "reload.go")).read()
@@ -689,13 +799,16 @@ def gen_text(d):
          "   component/outbound/dialer/sticky_cache.go on every run.  Do not edit.",
          "   Worker closure body at cmd/run.go line %d; completion code at line %d.  Branch labels: Lnnn+ / Lnnn- =" % (d["worker_line"], d["main_line"]),
          "   then/else of the `if` at that line, Lnnn#k = k-th clause of the switch/select at that line. *)",
-         "From Coq Require Import List NArith Bool.", "From Dae Require Import C20_Model.", "Import ListNotations.", "",
+         "From Coq Require Import List NArith ZArith Bool.", "From Dae Require Import C20_Model.", "Import ListNotations.", "",
          "Definition gen_worker_paths : list (list eff) := " + paths(d["worker"]) + ".", "",
          "Definition gen_main_paths : list (list eff) := " + paths(d["main"]) + ".", "",
          "Definition gen_cap : nat := %d." % d["cap"],
          "Definition gen_quiesce : N := %s%%N." % hex(quiesce),
          "Definition gen_codes : list N := [%s]%%N." % "; ".join(str(x) for x in d["codes"]),
-         "Definition gen_tables : tables := Build_tables gen_worker_paths gen_main_paths gen_cap gen_quiesce.", ""]
+         "(* waitForControlPlaneDrain: condition on maxWait under which `return controlPlaneDrainTimeout` can be reached *)",
+         "Definition gen_timer_guard : guard := %s." % d["timer_guard"],
+         "Definition gen_budget_total : Z := %s%%Z.  (* reloadTotalSwitchBudget, ns *)" % hex(d["budget_total_ns"]),
+         "Definition gen_tables : tables := Build_tables gen_worker_paths gen_main_paths gen_cap gen_quiesce gen_timer_guard gen_budget_total.", ""]
     return "\n".join(t)
 
 
@@ -705,6 +818,10 @@ def helper_mismatches(d):
         got = [x for x in (d["helpers"].get(k) or []) if not x.startswith("log.")]
         if got != exp:
             bad.append({"function": k, "expected_calls": exp, "found_calls": got})
+    for k, exp in EXPECTED_BODIES.items():
+        got = _nolit((d.get("bodies") or {}).get(k) or "")
+        if got != exp:
+            bad.append({"function": k, "expected_body": exp, "found_body": got})
     for p in d.get("main_idle") or []:
         if any(e != "Exit" for e in p["effs"]):
             bad.append({"function": "main loop, branch taken when reloading is not set", "found_calls": p["effs"], "expected_calls": []})
@@ -736,6 +853,7 @@ class Walk:
         self.pend_ret = None
         self.waiting = None
         self.open = []
+        self.need = {}          # retirement -> ns after which it must have finished (0: nothing to wait for)
         self.nret = 0
         self.exited = False
         self.ready_wait_signals = ready_wait_signals
@@ -757,11 +875,19 @@ class Walk:
             pass
         else:
             op = dict(EFF_OP[e])
+            if op["op"] == "R":
+                # the retirement that is still running is accelerated (its context is cancelled)
+                if self.nret - 1 in self.need:
+                    self.need[self.nret - 1] = 0
+                self.need[self.nret] = 0
+                if self.rng.random() < 0.6:
+                    op = gen_ret_params(self.rng)
+                    self.need[self.nret] = ret_need(op, self.d["budget_total_ns"])
             if op["op"] == "K" and self.race and self.held and self.rng.random() < self.race:
                 # a signal arrives just now: its failed CAS precedes, its busy report follows this release
                 op = {"op": "QK", "b": self.rng.random() < 0.4}
             self.emit(op)
-            k = "K" if op["op"] == "QK" else op["op"]
+            k = {"QK": "K", "RF": "R"}.get(op["op"], op["op"])
             if k in ("K", "F"):
                 self.held = False
             elif k == "H":
@@ -824,12 +950,66 @@ class Walk:
             self.do_eff(self.mprog.pop(0))
         elif a == "ret":
             dch = self.rng.choice(self.open)
+            need = self.need.get(dch, 0)
+            if need > 200 * MS:
+                # a long budget is left: either the sessions end, or the harness looks in vain for a while
+                if signals and self.rng.random() < 0.4:
+                    self.emit({"op": "D", "d": dch, "wait_ms": 30})
+                    return True
+                self.emit({"op": "SD", "d": dch})
+                self.need[dch] = 0
+                return True
+            wait = 400 if need > 0 else self.rng.choice([0, 30])
             self.open.remove(dch)
-            self.emit({"op": "D", "d": dch})
+            self.emit({"op": "D", "d": dch, "wait_ms": wait})
             if self.waiting == dch:
                 self.waiting = None
                 self.held = False
         return True
+
+
+MS = 1000000
+SEC = 1000000000
+
+
+def gen_ret_params(rng):
+    """circumstances of one retirement: --abort, dialer overlap, age of the request (boundaries of the
+    10 s budget: fresh, 150 ms left, exactly used up, long used up), sessions of the old generation"""
+    return {"op": "RF", "abort": rng.random() < 0.15, "overlap": rng.random() < 0.8,
+            "elapsed_ns": rng.choice([0, 3 * SEC, 9850 * MS, 10 * SEC, 11 * SEC, 60 * SEC]),
+            "zero": rng.random() < 0.08, "sessions": rng.choice([0, 1, 1, 3])}
+
+
+def ret_need(op, total):
+    if op.get("abort") or not op.get("overlap") or op.get("sessions", 0) == 0:
+        return 0
+    if op.get("zero"):
+        return max(0, total)
+    return max(0, total - op.get("elapsed_ns", 0))
+
+
+def gen_drain(rng, d, n_ops, boundary=False):
+    """probes of the real waitForControlPlaneDrain / remainingReloadRetirementBudget at boundary budgets"""
+    total = d["budget_total_ns"]
+    ops = []
+    if boundary:
+        for mw in (-SEC, -1, 0, 1, 1000, 70 * MS, total):
+            ops.append({"op": "WD", "maxw_ns": mw, "sessions": 2, "idle_ms": -1, "cancel_ms": -1, "watch_ms": 300})
+        for b, e, z in ((-1, 0, False), (0, 0, False), (1, 0, False), (total, 0, False), (total, 3 * SEC, False),
+                        (total, total, False), (total, total + SEC, False), (total, 60 * SEC, False), (5, 0, True), (total, 0, True)):
+            ops.append({"op": "RB", "budget_ns": b, "elapsed_ns": e, "zero": z})
+    while len(ops) < n_ops:
+        if rng.random() < 0.6:
+            idle = rng.choice([-1, -1, 30, 150])
+            cancel = rng.choice([-1, -1, 30, 150])
+            if idle == cancel and idle >= 0:
+                cancel = -1
+            ops.append({"op": "WD", "maxw_ns": rng.choice([-SEC, -1, 0, 0, 1, 1000, 70 * MS, total]), "sessions": rng.choice([0, 1, 5]),
+                        "idle_ms": idle, "cancel_ms": cancel, "watch_ms": 300})
+        else:
+            b = rng.choice([-SEC, -1, 0, 1, 5 * SEC, total])
+            ops.append({"op": "RB", "budget_ns": b, "elapsed_ns": rng.choice([0, SEC, 4 * SEC, 6 * SEC, total + SEC, 60 * SEC]), "zero": rng.random() < 0.15})
+    return {"cap": d["cap"], "ops": ops, "legal": False, "drained": False, "wpaths": [], "mpaths": [], "kind": "drain"}
 
 
 def gen_legal(rng, d, n_ops, ready_wait_signals=0.0, force_worker=None, force_main=None, race=0.0):
@@ -848,7 +1028,7 @@ def gen_legal(rng, d, n_ops, ready_wait_signals=0.0, force_worker=None, force_ma
             "kind": "readywait" if ready_wait_signals else ("race" if race else "legal")}
 
 
-ADV_OPS = ["Q", "Q", "Q", "T", "A", "L", "C", "P", "K", "H", "N", "O", "F", "R", "X", "D", "E", "K", "T"]
+ADV_OPS = ["Q", "Q", "Q", "T", "A", "L", "C", "P", "K", "H", "N", "O", "F", "R", "RF", "X", "D", "D", "SD", "E", "K", "T"]
 
 
 def gen_adversarial(rng, d, n_ops):
@@ -861,14 +1041,18 @@ def gen_adversarial(rng, d, n_ops):
             op["b"] = rng.random() < 0.5
         if k == "P":
             op["code"] = rng.choice(["Send", "Processing", "Done", "Error", "Busy"])
-        if k == "R":
+        if k in ("R", "RF"):
             if nret >= 6:
                 continue
+            if k == "RF":
+                op = gen_ret_params(rng)
             nret += 1
-        if k == "D":
+        if k in ("D", "SD"):
             if nret == 0:
                 continue
             op["d"] = rng.randrange(nret)
+            if k == "D":
+                op["wait_ms"] = rng.choice([0, 30, 400])
         ops.append(op)
     return {"cap": d["cap"], "ops": ops, "legal": False, "drained": False, "wpaths": [], "mpaths": [], "kind": "adversarial"}
 
@@ -876,13 +1060,28 @@ def gen_adversarial(rng, d, n_ops):
 # ------------------------------------------------------------------------------------------------
 # evaluation
 # ------------------------------------------------------------------------------------------------
+def _optn(ms):
+    return "None" if ms is None or ms < 0 else "(Some %d%%N)" % (ms * MS)
+
+
 def op_coq(op):
     k = op["op"]
     b = "true" if op.get("b") else "false"
+    if k == "RF":
+        return "OStartRetirementWith (Build_ret_params %s %s %d%%N %s %d)" % (
+            vlib.cbool(op.get("abort")), vlib.cbool(op.get("overlap")), op.get("elapsed_ns", 0), vlib.cbool(op.get("zero")), op.get("sessions", 0))
+    if k == "D":
+        return "ORetire %d %d%%N" % (op.get("d", 0), op.get("wait_ms", 0) * MS)
+    if k == "SD":
+        return "OSessionsEnd %d" % op.get("d", 0)
+    if k == "WD":
+        return "OWaitDrain (%d)%%Z %d %s %s %d%%N" % (op["maxw_ns"], op["sessions"], _optn(op["idle_ms"]), _optn(op["cancel_ms"]), op["watch_ms"] * MS)
+    if k == "RB":
+        return "OBudget (%d)%%Z %d%%N %s" % (op["budget_ns"], op.get("elapsed_ns", 0), vlib.cbool(op.get("zero")))
     return {"Q": "OQueue " + b, "QK": "OQueueRace " + b, "T": "OTake", "A": "OSetActive " + b, "L": "OSetReloading " + b, "C": "OCoalesce",
             "P": "OProgress C" + op.get("code", "Done"), "K": "OClearPending", "H": "OBeginHandoff", "N": "ONotify",
             "O": "OFinishOk", "F": "OFinishFail", "R": "OStartRetirement", "X": "OClearPendingRetirement",
-            "D": "ORetire %d" % op.get("d", 0), "S": "OReadyWaitSignal", "E": "OEnd"}[k]
+            "S": "OReadyWaitSignal", "E": "OEnd"}[k]
 
 
 def obs_coq(o):
@@ -929,7 +1128,7 @@ def run_batch(sc, binary, cases, tag, d):
             continue
         terms.append("(Build_obs_case %s %s [%s])" % (vlib.cbool(c["legal"]), vlib.cbool(c["drained"]), steps))
         idx.append(i)
-    text = ("From Coq Require Import List NArith Bool.\nFrom Dae Require Import C20_Spec C20_Model C20_Check.\n"
+    text = ("From Coq Require Import List NArith ZArith Bool.\nFrom Dae Require Import C20_Spec C20_Model C20_Check.\n"
             "From Dae.gen Require Import C20_ReloadPaths.\nImport ListNotations.\n"
             "Definition cases : list obs_case := [\n" + ";\n".join(terms) + "\n].\n"
             "Definition R := Eval vm_compute in map (check_case gen_tables) cases.\nPrint R.\n"
@@ -1016,6 +1215,14 @@ def describe(case, err):
         return "a goroutine the protocol relies on never finished: " + note
     if code == 9:
         return "the implementation panicked: " + note
+    if op and op["op"] == "WD":
+        return ("waitForControlPlaneDrain(maxWait=%d ns) with %d session(s) that never drain and no cancellation was still waiting after %d ms: "
+                "the drain budget does not bound the retirement" % (op["maxw_ns"], op["sessions"], op["watch_ms"]))
+    if op and op["op"] == "RB":
+        return "remainingReloadRetirementBudget returned a value outside [0, budget]"
+    if op and op["op"] == "D":
+        return ("the old generation's retirement did not finish although its drain budget was used up (sessions that never drain): done is never closed, "
+                "reloadPending is never released, every later request is refused as busy and the failure muting is never lifted")
     if op and op["op"] == "S":
         return ("a reload/suspend signal that arrives while the main loop waits for the new generation to become ready "
                 "(waitReloadReadyOrSignal) is dropped: not queued and NOT reported as busy")
@@ -1029,7 +1236,7 @@ def main(argv):
     out = vlib.Outcome(PID, args.tier, args.seed)
     rng = vlib.rng_for(args.seed, PID)
     quick = args.tier == "quick"
-    n_legal, n_adv, n_rw, n_race = (150, 80, 10, 16) if quick else (5000, 2500, 200, 300)
+    n_legal, n_adv, n_rw, n_race, n_drain = (150, 80, 10, 16, 4) if quick else (5000, 2500, 200, 300, 60)
 
     cov = {"obligations": 0, "discharged": 0,
            "checker_cmd": "cd /verif/coq && coq_makefile -f _CoqProject -o Makefile && make -j16 " + " ".join(TARGETS) + " && coqc -Q . Dae C20_Props.v (Print Assumptions captured)",
@@ -1108,6 +1315,8 @@ def main(argv):
             kp = [k for k, p in enumerate(d["worker"]) if "ClearPending" in p["effs"]]
             cases.append(gen_legal(rng, d, rng.choice([6, 12, 25]), 0.0, force_worker=kp[0] if (i < 3 and kp) else None,
                                    race=1.0 if i < 3 else 0.5))
+        for i in range(n_drain):
+            cases.append(gen_drain(rng, d, 17 if i == 0 else rng.choice([4, 8]), boundary=(i == 0)))
         for i in range(n_adv):
             cases.append(gen_adversarial(rng, d, rng.choice([3, 6, 12, 30, 60])))
 
@@ -1180,7 +1389,7 @@ def main(argv):
                                "failing_cases": len(idxs), "matchers": matchers,
                                "how": "./check C20 --replay <this file>; ops: Q=queueReloadRequest T=worker receives A=reloadActive.Store L=reloading.Store C=coalesce P=setRunSignalProgress "
                                       "K=clearReloadPending H=beginHandoff N=notify O=finishReloadSuccess F=finishReloadFailure R=startControlPlaneRetirement X=clearPendingRetirement "
-                                      "D=retirement d finishes S=SIGUSR1 during waitReloadReadyOrSignal E=EndReloadProxyFailureSuppression"},
+                                      "RF=the same with a plane whose sessions the harness controls (abort/overlap/age of request/sessions) D=retirement goroutine d runs for wait_ms SD=sessions of d end WD=waitForControlPlaneDrain probe RB=remainingReloadRetirementBudget probe S=SIGUSR1 during waitReloadReadyOrSignal E=EndReloadProxyFailureSuppression"},
                               describe(small if errs and errs.get(0) else cases[i], spec_errs(errs.get(0))[0] if errs and spec_errs(errs.get(0) or []) else e0) + " (%d failing sequences)" % len(idxs),
                               matchers=matchers)
             if r == "known":
